@@ -255,8 +255,8 @@ def target(old, new, level):
 
 
 def same_config(a, b, level):
-    """equality of two device states: unordered, except that rows governed by %ordered rules must appear in the
-    same relative order"""
+    """equality of two device states: unordered, except that rows governed by %ordered or %rewrite rules must appear in
+    the same relative order"""
     a = a or {}
     b = b or {}
     if set(a) != set(b):
@@ -277,7 +277,8 @@ def same_config(a, b, level):
 
 def _ordered(level, row):
     r, _, _ = level.match(row)
-    return r is not None and r.flag("ordered")
+    # statement order is part of a %rewrite block's meaning as well (annet re-sends the block when only the order changed)
+    return r is not None and (r.flag("ordered") or r.flag("rewrite"))
 
 
 def _plain(t):
